@@ -55,7 +55,7 @@
   (var stuck false)
   (for i 0 k
     (unless stuck
-      (def r (protect (ev/with-deadline 30 (net/accept srv))))
+      (def r (protect (ev/with-deadline 10 (net/accept srv))))
       (if (r 0)
         (do (array/push seen (string (ev/read (r 1) 2))) (ev/close (r 1)))
         (set stuck true))))
